@@ -53,12 +53,14 @@ CLAIMED = {
                      "this State's key (sha1/base64 uninterpreted, a function of the key); State.__init__ draws a fresh 16-byte key; the header block "
                      "limit is 16 KiB in parse/Parser.feed (terminated or not); Rejected releases the socket and ends the stream. Known finding: "
                      "Accept is compared case-insensitively (carved out, witness replayed every run). Header/request syntax: bounded stand-ins.",
-                note=TRUST + " Response.__init__/get/get_list, build_request: exhaustive small-grammar enumeration only (bounded).", design='DESIGN.md 5 C10'),
+                note=TRUST + " Response.__init__/get/get_list, build_request: exhaustive small-grammar enumeration only (bounded); on_response additionally "
+                     "run on 448 enumerated replies as a concrete back-up (bounded).", design='DESIGN.md 5 C10, 9.11'),
     'C11': dict(text="Deductive ownership + monitor obligations: every sendall/shutdown/close on the session socket is made while the session "
                      "lock is held (per-call obligation and package-wide AST scan), write performs exactly one sendall of its whole argument, "
                      "and a compressed message is deflated inside the same critical section that orders its frame on the wire.",
-                note=TRUST + " The step from per-critical-section obligations to all interleavings is the monitor / Owicki-Gries meta-theorem plus GIL atomicity (not machine-checked).",
-                design='DESIGN.md 5 C11'),
+                note=TRUST + " The step from per-critical-section obligations to all interleavings is the monitor / Owicki-Gries meta-theorem plus GIL atomicity (not machine-checked). "
+                     "Package scans (every run): socket calls only under the lock; each frame handed to write() by a single call outside any loop.",
+                design='DESIGN.md 5 C11, 9.11'),
     'C12': dict(text="Deductive monitor invariant 'Close on the wire => closing or closed': proved at every release of the session lock in write "
                      "(with the flags re-read under the lock after an interference step), and preserved by every store to the flags outside the lock "
                      "(close, _on_close, on_disconnect - the complete list by package scan); losers are refused with nothing written.",
@@ -104,8 +106,9 @@ CLAIMED = {
              "TypeError/ValueError and $wire unchanged; caller's buffer in no modifies set) is discharged by z3 for all "
              "lengths 0..2^63-1, keys, opcodes and argument kinds. Callers are checked against callee contracts only.",
         note=TRUST + " close()'s contract assumes code in 0..65535 and reason bytes|str; send_json assumes json.dumps returns str. "
-             "xor is an uninterpreted symbol in the VCs (table checked exhaustively, involution lemma by bit-vectors).",
-        design='DESIGN.md 5 C03'),
+             "xor is an uninterpreted symbol in the VCs (table checked exhaustively, involution lemma by bit-vectors). Concrete back-ups, labelled "
+             "bounded and not counted: mask_payload and Frame.build run at every length-form / block boundary up to 200 003 bytes against an independent decoder.",
+        design='DESIGN.md 5 C03, 9.11'),
 
     'C04': dict(
         text="Deductive: FrameParser.parse (one iteration of its frame loop, all first-two-byte pairs and extended lengths symbolic) "
